@@ -113,6 +113,27 @@ Theorem C07_eq_sound_oracles : forall uf bf,
     forall r, val (R_ops uf bf) osem a i r = val (R_ops uf bf) osem a j r.
 Proof. exact eq_sound_o. Qed.
 
+(* THE CONSTRUCTION-TIME RULES ARE THE SOURCE'S.  translate/gen_build.py re-reads Tree::unary and Tree::binary (tree.cpp) on every
+   run - the if / else-if ladders over `std::get_if<TreeConstant / TreeUnaryOp>`, `v->value == c`, `v->op == ...`,
+   `lhs.id() == rhs.id()`, with the C++ subtlety that a matched outer pattern whose inner tests fail leaves the ladder for the
+   default - into a rule table (Gen/BuildRules_gen.v); the results `-rhs`, `rhs - v->lhs`, `square(lhs)` ... are resolved through
+   the operator list of operations.hpp and the forwarding macros of operations.cpp are checked.  The table, run by the
+   interpreter of Tree/BuildRules.v (first guard that holds owns the call; nested calls go through the tables again),
+   IS the model's mk_unary / mk_binary that C07_unary_sem / C07_binary_sem are about: every opcode, every fuel, every arena,
+   every number type.  (Recorded, not derived: constant folding through ArrayEvaluator is o_un / o_bin - the fold's token
+   sequence is checked; the literals 0.0, 1.0f, 0, 1, -1 are the model's is_zero / is_one / is_mone.) *)
+From LF Require Tree.BuildRules Gen.BuildRules_gen Tree.BuildAgree.
+Theorem C07_build_rules_from_source :
+  forall (num : Type) (O : ops num),
+    (forall (a : arena num) (op : opcode) (l : nat),
+       BuildRules.interp_unary O BuildRules_gen.unary_rules_gen a op l = mk_unary O a op l) /\
+    (forall (fuel : nat) (a : arena num) (op : opcode) (l r : nat),
+       BuildRules.interp_binary O BuildRules_gen.unary_rules_gen BuildRules_gen.binary_rules_gen fuel a op l r
+       = mk_binary O fuel a op l r).
+Proof.
+  intros num O. split; [exact (BuildAgree.unary_rules_from_source O) | exact (BuildAgree.binary_rules_from_source O)].
+Qed.
+
 Print Assumptions C07_unary_sem.
 Print Assumptions C07_binary_sem.
 Print Assumptions C07_remap_sem.
@@ -125,3 +146,4 @@ Print Assumptions C07_flatten_sem_oracles.
 Print Assumptions C07_good_of_noT.
 Print Assumptions C07_optimized_sem_oracles.
 Print Assumptions C07_eq_sound_oracles.
+Print Assumptions C07_build_rules_from_source.
